@@ -6,6 +6,7 @@
 //   K <id> <k> <name> ...                                                 every BLAS call that was made (interposed)
 //   O <id> outcome=<ok|throw|abort> why=<...>                             how the adaptor call ended
 //   R <id> result=<ok|bad:...|na> guards=<ok|bad:...> inputs=<ok|bad:...> direct monitors (naive loops, guard cells)
+//   T <id> ... / W <id> <name> ...   expression cases only (common/c13_expr.hpp): the tree, the decorated operand views
 //   E <id>
 // The K and O lines are compared with the Coq model's; the R line is independent of the model.
 #include <boost/multi/adaptors/blas/asum.hpp>
@@ -105,6 +106,7 @@ struct VecSpec { idx n0 = 1, i0 = 0, len = 0, step = 1; char deco = 'N'; unsigne
 struct Case {
 	std::string id, routine, et, form;
 	std::string flags[3];
+	std::string tree;   // expression cases: the `tree` line (key=value ...), see common/c13_expr.hpp
 	long a_re = 1, a_im = 0, b_re = 0, b_im = 0;
 	std::map<char, MatSpec> mats;
 	std::map<char, VecSpec> vecs;
@@ -131,29 +133,46 @@ template<class T> struct Buf {
 	bool unchanged() const { return cells == before; }
 };
 
+// Everything the K / O lines are printed from lives in the objects themselves (stack / static storage), never on the
+// heap: several defective dispatch branches of the pinned tree make BLAS write outside a freshly allocated result, and a
+// record of WHAT WAS CALLED must survive the damage to the neighbouring heap blocks (the damage itself is reported by the
+// monitors / by the death of the child process).
 struct Registry {
 	struct Ent { char name; char const* lo; char const* hi; char const* root; int esize; };
-	std::vector<Ent> ents;
+	static constexpr int kMax = 12;
+	Ent ents[kMax] = {};
+	int n = 0;
+	void push(Ent e) { if(n < kMax) { ents[n++] = e; } }
 	template<class T> void add(char name, Buf<T>& b) {
-		ents.push_back({name, reinterpret_cast<char const*>(b.cells.data()), reinterpret_cast<char const*>(b.cells.data() + b.cells.size()),
-		                reinterpret_cast<char const*>(b.root()), static_cast<int>(sizeof(T))});
+		push({name, reinterpret_cast<char const*>(b.cells.data()), reinterpret_cast<char const*>(b.cells.data() + b.cells.size()),
+		      reinterpret_cast<char const*>(b.root()), static_cast<int>(sizeof(T))});
 	}
 	void add_raw(char name, void const* lo, idx nelem, int esize) {
 		auto const* p = static_cast<char const*>(lo);
-		ents.push_back({name, p, p + nelem * esize + 1, p, esize});
+		push({name, p, p + nelem * esize + 1, p, esize});
 	}
 	std::string where(void const* p) const {
 		auto const* q = static_cast<char const*>(p);
-		for(auto const& e : ents) {
+		for(int k = 0; k != n; ++k) {
+			auto const& e = ents[k];
 			if(q >= e.lo && q < e.hi) {
-				std::ostringstream os;
-				os << e.name << "+" << (q - e.root) / e.esize;
-				return os.str();
+				char buf[32];   // "A+123456": fits the small-string buffer, no allocation
+				std::snprintf(buf, sizeof(buf), "%c+%ld", e.name, static_cast<long>((q - e.root) / e.esize));
+				return buf;
 			}
 		}
 		return p == nullptr ? "null" : "?";
 	}
 };
+
+// how the adaptor call ended: a fixed-size text (see above)
+struct Outcome {
+	char text[64] = "outcome=? why=-";
+	void set(char const* a, std::string const& b = std::string()) { std::snprintf(text, sizeof(text), "%s%s", a, b.c_str()); }
+	std::size_t rfind(char const* prefix, std::size_t /*pos*/) const { return std::strncmp(text, prefix, std::strlen(prefix)) == 0 ? 0 : std::string::npos; }
+	bool contains(char const* what) const { return std::strstr(text, what) != nullptr; }
+};
+inline std::ostream& operator<<(std::ostream& os, Outcome const& o) { return os << o.text; }
 
 // ------------------------------------------------------------------------------------------------ views
 template<class T> struct MatView {
@@ -271,19 +290,20 @@ static std::string classify(std::string const& what) {
 }
 
 // run f() catching exceptions and assertion aborts; returns the O line's text
-template<class F> std::string guarded(F&& f) {
-	std::string out = "outcome=ok why=-";
+template<class F> Outcome guarded(F&& f) {
+	Outcome out;
+	out.set("outcome=ok why=-");
 	g_armed = 1;
 	if(sigsetjmp(g_jmp, 1) == 0) {
 		try {
 			f();
 		} catch(std::exception const& e) {
-			out = "outcome=throw why=" + classify(e.what());
+			out.set("outcome=throw why=", classify(e.what()));
 		} catch(...) {
-			out = "outcome=throw why=unknown";
+			out.set("outcome=throw why=unknown");
 		}
 	} else {
-		out = "outcome=abort why=assert";
+		out.set("outcome=abort why=assert");
 	}
 	g_armed = 0;
 	return out;
@@ -305,7 +325,8 @@ template<class T> void run_gemm(Case const& cs) {
 	T const beta = mk<T>(cs.b_re, cs.b_im);
 	bool const in_c = (cs.form == "inplace" || cs.form == "assign" || cs.form == "pluseq");
 
-	std::string outcome, result = "na";
+	Outcome outcome;
+	std::string result = "na";
 	std::vector<T> expect;      // row-major M x N expected contents of the output
 	idx M = 0, N = 0;
 	std::vector<T> got;
@@ -415,7 +436,8 @@ template<class T> void run_gemv(Case const& cs) {
 	T const alpha = mk<T>(cs.a_re, cs.a_im);
 	T const beta = mk<T>(cs.b_re, cs.b_im);
 	bool const in_y = (cs.form == "inplace" || cs.form == "assign" || cs.form == "pluseq");
-	std::string outcome, result = "na";
+	Outcome outcome;
+	std::string result = "na";
 	std::vector<T> expect, got;
 	bool got_valid = false;
 	multi::array<T, 1> fresh;
@@ -483,6 +505,7 @@ template<class T> void run_gemv(Case const& cs) {
 	std::cout << "R " << g_id << " result=" << result << " guards=" << guards << " inputs=" << inputs << " frame=" << frame << "\n";
 }
 
+#include "common/c13_expr.hpp"
 #include "common/c13_level1.hpp"
 #include "common/c13_level3.hpp"
 
@@ -491,9 +514,10 @@ template<class T> void run_typed(Case const& cs) {
 	if(cs.routine == "gemm") {
 		// gemm for std::complex<float> is ill-formed at the pinned commit (core.hpp:530 compares a complex<float> with 0.0)
 		if constexpr(std::is_same_v<T, std::complex<float>>) { std::cout << "O " << g_id << " outcome=harness-error why=cgemm-ill-formed\n"; }
+		else if(cs.form == "expr") { run_gemm_expr<T>(cs); }
 		else { run_gemm<T>(cs); }
 	}
-	else if(cs.routine == "gemv") { run_gemv<T>(cs); }
+	else if(cs.routine == "gemv") { if(cs.form == "expr") { run_gemv_expr<T>(cs); } else { run_gemv<T>(cs); } }
 	else if(cs.routine == "syrk") { run_rk<T>(cs, false); }
 	else if(cs.routine == "herk") { run_rk<T>(cs, true); }
 	else if(cs.routine == "trsm") { run_trsm<T>(cs); }
@@ -557,6 +581,7 @@ int main() {
 		else if(!open) { continue; }
 		else if(kw == "op") { is >> cs.routine >> cs.et >> cs.form; }
 		else if(kw == "flags") { is >> cs.flags[0] >> cs.flags[1] >> cs.flags[2]; }
+		else if(kw == "tree") { std::getline(is, cs.tree); }
 		else if(kw == "alpha") { is >> cs.a_re >> cs.a_im; }
 		else if(kw == "beta") { is >> cs.b_re >> cs.b_im; }
 		else if(kw == "A" || kw == "B" || kw == "C" || kw == "M") {
